@@ -111,8 +111,9 @@ def r12_2(cx):
     prog = cx.prog
     fn = prog.fn(MV + '::new')
     oks = [pos for pos, st in fn.statements() if st['k'] == 'assign' and st['pl']['l'] == 0 and st['rv']['k'] == 'agg' and st['rv']['variant'] == 'Ok']
-    cx.require(len(oks) == 1, 'MessageView::new no longer has exactly one Ok return')
-    okb = oks[0].bb
+    cx.require(len(oks) >= 1, 'MessageView::new no longer has an Ok return')
+    okbs = [p.bb for p in oks]
+    okb = okbs[0]
     errs = {}
     for pos, st in fn.statements():
         if st['k'] == 'assign' and st['rv']['k'] == 'agg' and st['rv']['name'].endswith('decoder::DecodingError'):
@@ -155,16 +156,17 @@ def r12_2(cx):
             continue
         # the Ok return must not be reachable through the failing edge, and the gate must be unavoidable
         b = edge[0]
-        through_fail = okb in fn.reachable(edge[1])
+        through_fail = any(ob in fn.reachable(edge[1]) for ob in okbs)
         if g == 'TruncatedPayload':
             # only when there is a last offset: the gate dominates Ok on the Some side of offsets().last()
             sw = [x for x in fn.dominators()[b] if fn.term(x)['k'] == 'switch' and fn.switch_expr(x).kind == 'discr' and fn.switch_expr(x).has_call('last')]
-            unavoidable = bool(sw) and all(fn.dominates(s, okb) for s in sw)
+            unavoidable = bool(sw) and all(fn.dominates(s, ob) for s in sw for ob in okbs)
             if sw:
                 some_t = [s for s, vals in fn.edge_values(sw[-1]).items() if 1 in vals]
-                unavoidable = unavoidable and bool(some_t) and fn.path(some_t[0], [okb], cut_blocks=[b]) is None
+                unavoidable = unavoidable and bool(some_t) and fn.path(some_t[0], okbs, cut_blocks=[b]) is None
         else:
-            unavoidable = fn.dominates(b, okb)
+            # every Ok return (a fast path adds one) lies behind the gate
+            unavoidable = all(fn.dominates(b, ob) for ob in okbs)
         if g == 'TruncatedHeader':
             # the header arrays are sliced out of the buffer only after it is known to hold them
             early = [c for c in fn.calls() if (c.matches(MV + '::offsets') or c.matches(MV + '::tags')) and not (fn.dominates(b, c.bb) and c.bb != b)]
@@ -191,7 +193,7 @@ def r12_2(cx):
                              fail_detail='the neighbour comparison that rejects is `%s`, not a strict `>`: equal neighbours must be accepted' % rel[0])
     if not found:
         cx.fail('neighbours-strict', fn, None, 'no `left > right` comparison guards the non-monotonic witness')
-    cx.check(True, 'ok-is-the-view', fn, fn.loc(okb), 'single Ok return')
+    cx.check(True, 'ok-is-the-view', fn, fn.loc(okb), '%d Ok return(s), each behind every gate' % len(okbs))
 
 
 def r12_3(cx):
